@@ -529,18 +529,45 @@ class LockAnalysis:
         site = {"fn": fn, "block": bid, "idx": si, "cv": e[1], "lock": e[2],
                 "stmt": fn.blocks[bid].stmts[si], "loop": scc, "conds": [],
                 "reads": set()}
+        self._loop_pred(fn, scc, site)
+        # enclosing loops (a re-check loop nested in the loop that evaluates the full predicate)
+        site["outer"] = []
+        for h_, body_ in sorted(paths.natural_loops(fn), key=lambda hb: len(hb[1])):
+            if bid in body_ and scc and set(body_) > set(scc):
+                o_ = {"loop": set(body_), "conds": [], "reads": set()}
+                self._loop_pred(fn, set(body_) - set(scc), o_, within=set(body_))
+                site["outer"].append(o_)
+        return self._wait_site_between(fn, bid, si, site, scc)
+
+    def _loop_pred(self, fn, scc, site, within=None):
+        """exit conditions of the loop `within` (default scc) that sit in blocks of scc, and the fields they read"""
+        within = within if within is not None else scc
         al = self.aliases(fn)
         for x in sorted(scc):
+            if False:
+                pass
             blk = fn.blocks[x]
-            outs = [s for s in blk.succs if s.get("to") is not None and s["to"] not in scc]
+            outs = [s for s in blk.succs if s.get("to") is not None and s["to"] not in within]
             if not outs or len(blk.succs) < 2:
                 continue
             c = blk.cond_node()
             if c is None:
                 continue
-            stay = [s.get("label") for s in blk.succs if s.get("to") in scc]
+            stay = [s.get("label") for s in blk.succs if s.get("to") in within]
             site["conds"].append({"block": x, "node": c, "stay_on": stay})
-            for ev in self.stmt_events(fn, c, al):
+            # sub-expressions computed in other blocks (operands of && / || / ?:) are `ref`s
+            parts = [c]
+            seen_refs = set()
+            k_ = 0
+            while k_ < len(parts):
+                for y in ir.walk(parts[k_]):
+                    if isinstance(y, dict) and y.get("k") == "ref" and (y.get("b"), y.get("i")) not in seen_refs:
+                        seen_refs.add((y.get("b"), y.get("i")))
+                        t_ = fn.resolve_ref(y)
+                        if t_ is not None:
+                            parts.append(t_)
+                k_ += 1
+            for ev in [e_ for p_ in parts for e_ in self.stmt_events(fn, p_, al)]:
                 if ev[0] == "r":
                     site["reads"].add(ev[1])
                 elif ev[0] == "call" and ev[1]:
@@ -557,6 +584,9 @@ class LockAnalysis:
                                         site["reads"].add(t)
                             else:
                                 site["reads"].add(k2)
+        return site
+
+    def _wait_site_between(self, fn, bid, si, site, scc):
         # statements between the wait and the re-evaluation of the predicate
         extra = []
         rows = self.events(fn)[bid]
